@@ -23,16 +23,17 @@ type Config struct {
 
 // Result describes one complete (or cut) execution.
 type Result struct {
-	Choices []int
-	Trace   []Step
-	Outcome string // ok | leak | deadlock | horizon | cut | stall
-	Panics  []string
-	Blocked []string
-	Races   []string
-	Faults  int
-	Preempt int
-	Foreign int64
-	Threads int
+	Choices    []int
+	Trace      []Step
+	Outcome    string // ok | leak | deadlock | horizon | cut | stall
+	Panics     []string
+	Blocked    []string
+	Races      []string
+	Faults     int
+	FaultSteps []int // indices into Trace of the injected faults
+	Preempt    int
+	Foreign    int64
+	Threads    int
 }
 
 // Schedule renders the trace compactly.
@@ -257,6 +258,11 @@ loop:
 	res.Trace = x.trace
 	res.Races = x.races
 	res.Faults = x.faults
+	for i, s := range x.trace {
+		if strings.HasPrefix(s.Op, "io:") && s.Answer == 1 {
+			res.FaultSteps = append(res.FaultSteps, i)
+		}
+	}
 	res.Preempt = x.preempt
 	res.Foreign = atomic.LoadInt64(&x.foreign)
 	res.Threads = len(x.threads)
@@ -403,6 +409,18 @@ func (e *Explorer) Explore(mk func() Run) *Stats {
 	}
 	st.States = int64(len(e.visited))
 	return st
+}
+
+// Now returns the number of transitions executed so far in the current
+// execution (0 outside an exploration); a driver uses it to timestamp its calls.
+func Now() int {
+	x := current()
+	if x == nil {
+		return 0
+	}
+	x.mu.Lock()
+	defer x.mu.Unlock()
+	return len(x.trace)
 }
 
 // Replay runs one choice list and returns the result and verdict.
